@@ -107,4 +107,40 @@ theorem future_witness_version_succeeds (fl : Flags) (chk : Checker) (wit : List
   have h1 : (ver == 1) = false := by simp; omega
   simp [h0, h1, hd]
 
+
+theorem toNat_ofNat_lt' (k : Nat) (h : k < 256) : (UInt8.ofNat k).toNat = k := by
+  simp [UInt8.toNat_ofNat']; omega
+
+/-- the canonical push of `d` tokenizes back to exactly one opcode carrying `d` -/
+theorem getOp_pushData (d : Bytes) (h : d.length ≤ 65535) :
+    ∃ op, getOp (pushData d) = some (op, d, []) := by
+  unfold pushData
+  simp only []
+  by_cases h1 : d.length < OP_PUSHDATA1
+  · simp only [h1, if_true]
+    have hlt : d.length < 256 := by unfold OP_PUSHDATA1 at h1; omega
+    refine ⟨d.length, ?_⟩
+    unfold getOp
+    simp only [toNat_ofNat_lt' _ hlt, h1, if_true, Nat.lt_irrefl, if_false, List.take_length, List.drop_length]
+  · simp only [h1, if_false]
+    by_cases h2 : d.length ≤ 0xff
+    · simp only [h2, if_true]
+      refine ⟨OP_PUSHDATA1, ?_⟩
+      unfold getOp
+      have e : (0x4c : UInt8).toNat = OP_PUSHDATA1 := rfl
+      have hlt : d.length < 256 := by omega
+      simp only [e, Nat.lt_irrefl, if_false, beq_self_eq_true, if_true, toNat_ofNat_lt' _ hlt, List.take_length,
+        List.drop_length]
+    · simp only [h2, if_false, h, if_true]
+      refine ⟨OP_PUSHDATA2, ?_⟩
+      unfold getOp
+      have e : (0x4d : UInt8).toNat = OP_PUSHDATA2 := rfl
+      have n1 : ¬ OP_PUSHDATA2 < OP_PUSHDATA1 := by decide
+      have n2 : (OP_PUSHDATA2 == OP_PUSHDATA1) = false := by decide
+      have hm : d.length % 256 < 256 := Nat.mod_lt _ (by decide)
+      have hq : d.length / 256 < 256 := by omega
+      have hsum : d.length % 256 + 256 * (d.length / 256) = d.length := Nat.mod_add_div _ _
+      simp only [e, n1, n2, if_false, Bool.false_eq_true, beq_self_eq_true, if_true, toNat_ofNat_lt' _ hm,
+        toNat_ofNat_lt' _ hq, hsum, Nat.lt_irrefl, List.take_length, List.drop_length]
+
 end BV.C06.Lemmas
